@@ -1,0 +1,17 @@
+//go:build verif
+
+package smtp
+
+import (
+	"github.com/foxcpp/maddy/framework/log"
+)
+
+// VerifWrapErr exposes the conversion of an internal error into the reply
+// sent to the SMTP client (Endpoint.wrapErr) to the verification harness.
+//
+// msgID, mangleUTF8 (client did NOT negotiate SMTPUTF8) and command are passed
+// through unchanged; the endpoint used has no listeners and logs nowhere.
+func VerifWrapErr(msgID string, mangleUTF8 bool, command string, err error) error {
+	endp := &Endpoint{name: "verif", Log: log.Logger{Out: log.NopOutput{}}}
+	return endp.wrapErr(msgID, mangleUTF8, command, err)
+}
